@@ -43,7 +43,7 @@ type tierCfg struct {
 
 func cfg(tier string) tierCfg {
 	if tier == "thorough" {
-		return tierCfg{l1: 400000, stream: 100000, budget: 20000}
+		return tierCfg{l1: 1200000, stream: 300000, budget: 20000}
 	}
 	return tierCfg{l1: 6000, stream: 2000, budget: 6000}
 }
@@ -109,8 +109,10 @@ func (d *D) Base(idx int, ctx *core.Ctx) *core.Scenario {
 func (d *D) streamBase(idx int, ctx *core.Ctx) *core.Scenario {
 	r := core.ItemRNG(ctx.Seed, "C02-stream", idx)
 	sc := &core.Scenario{Property: "C02", Seed: ctx.Seed, Index: idx, Level: "cli-stream", Kind: "stream", ReplayExact: true}
+	fromReaders := false
 	switch k := r.Intn(10); {
 	case k < 5:
+		fromReaders = true
 		sc.Program = readers[r.Intn(len(readers))]
 	case k < 7:
 		o := gen.Opts{Stmts: r.Range(2, 6), MaxDepth: 2, Funcs: r.Intn(2), Reads: true, Panics: r.Chance(0.3), Specials: r.Chance(0.3)}
@@ -145,8 +147,9 @@ func (d *D) streamBase(idx int, ctx *core.Ctx) *core.Scenario {
 	case 3: // empty input
 		full = ""
 	}
-	if r.Chance(0.06) {
-		// a very long line, delivered over many reads
+	if r.Chance(0.1) && fromReaders {
+		// a very long line, delivered over many reads (only for the fixed reader programs:
+		// a generated program may loop over the line and print it each time)
 		n := []int{4096, 65535, 65536, 70000, 300000}[r.Intn(5)]
 		full = strings.Repeat("y", n) + nl + full
 	}
